@@ -140,11 +140,12 @@ def penalty_specs(pname, dspec, X, y, fit_intercept, tier, fracs=None):
             if Lmin is None or not (g * Lmin > 1 + 1e-9) or (pname == "BlockSCAD" and not (g - 1 > 1 / Lmin)):
                 continue
             out += [dict(name=pname, alpha=a, gamma=g)]
-        elif pname in ("WeightedGroupL2", "WeightedGroupL2+"):
+        elif pname in ("WeightedGroupL2", "WeightedGroupL2+", "WeightedGroupL2+0", "WeightedGroupL2-0"):
             ptr, ind = dspec["grp_ptr"], dspec["grp_indices"]
             G = len(ptr) - 1
-            out += [dict(name="WeightedGroupL2", alpha=a, weights=[1.0, 2.0, 0.5, 1.0, 1.5, 1.0][:G], grp_ptr=ptr,
-                         grp_indices=ind, positive=pname.endswith("+"))]
+            wts = [0.0, 1.0, 0.5, 0.0, 1.5, 1.0] if pname.endswith("0") else [1.0, 2.0, 0.5, 1.0, 1.5, 1.0]
+            out += [dict(name="WeightedGroupL2", alpha=a, weights=wts[:G], grp_ptr=ptr,
+                         grp_indices=ind, positive="+" in pname)]
         else:
             raise KeyError(pname)
     return out
@@ -269,3 +270,17 @@ def knob_settings(solver, d, tier, p, multitask=0, with_budget=True, with_start=
                         start = v
                 out.append(dict(kw=kw, start=start, dev=k))
     return out
+
+
+EXP_BASED = ("Logistic", "LogisticGroup", "Poisson", "Gamma", "Cox")
+
+
+def start_in_range(dname, X, w0, fit_intercept):
+    """Warm starts of exp-based losses must keep |X w0 + b| <= 30: beyond, float64 saturates (Hessian underflows to 0,
+    exp overflows) and no Newton-type model exists; same range rule as C06."""
+    if dname not in EXP_BASED or w0 is None:
+        return True
+    w0 = np.asarray(w0, dtype=float)
+    p = X.shape[1]
+    u = X @ w0[:p] + (w0[p] if fit_intercept else 0.0)
+    return bool(np.max(np.abs(u)) <= 30.0)
